@@ -998,6 +998,8 @@ C("_lost_segment_handling", arg_types={**SELF, "offset": T.Int, "data_len": T.In
       Clause("C06.retransmitted_segment_is_removed_exactly", lambda o, n, r: Implies_(And_(Not_(_lsh_gap(o)), _lsh_retransmitted(o), _seg_clean(o)),
              z3.ForAll([TR.X], TR.view(trk(n.self), TR.X) == z3.And(TR.view(trk(o.self), TR.X), z3.Not(
                  z3.And(o.offset <= TR.X, TR.X < o.offset + o.data_len))))), ("C06",)),
+      Clause("C06.straddling_segment_changes_nothing", lambda o, n, r: Implies_(And_(Not_(_lsh_gap(o)), _lsh_retransmitted(o), _seg_straddles(o)),
+             z3.ForAll([TR.X], TR.view(trk(n.self), TR.X) == TR.view(trk(o.self), TR.X))), ("C06", "C10")),
       Clause("C06.otherwise_tracker_unchanged", lambda o, n, r: Implies_(And_(Not_(_lsh_gap(o)), Not_(_lsh_retransmitted(o))),
              z3.ForAll([TR.X], TR.view(trk(n.self), TR.X) == TR.view(trk(o.self), TR.X))), ("C06",)),
       Clause("inv.tracker", lambda o, n, r: tracker_inv(n.self), ("C06", "C10")),
@@ -1005,8 +1007,6 @@ C("_lost_segment_handling", arg_types={**SELF, "offset": T.Int, "data_len": T.In
       Clause("queue.counter", lambda o, n, r: to_z3_int(n.self.states._num_packets_ready) == n.self._pdus_to_be_sent.length(), ("C06",)),
       Clause("C06.no_other_output", lambda o, n, r: len(inds(n)) == 0 and len(fault_cbs(n)) == 0 and len(vfs_ops(n)) == 0, ("C06",)),
   ],
-  raises=[RaiseClause("F5b.tracker_value_error_leaks", ValueError, when=lambda o: And_(_lsh_retransmitted(o), Not_(_seg_clean(o))),
-                      props=("C10",), modifies=LSH_MOD)],
   effects=set(), modular=True)
 
 
@@ -1110,15 +1110,11 @@ C("_handle_fd_pdu", arg_types={**SELF, "file_data_pdu": T.Obj(_FD)}, props=("C05
       Clause("inv.step", lambda o, n, r: Implies_(ne(n.self.states.state, IDLE),
                                                   True if _rejected_or_assumed_not(n) else step_inv(n.self)), ("C10", "C03")),
       # F5a: in immediate NAK mode a File Data PDU beyond the EOF size that also opens a gap queues a NAK and moves to completion
-      # F5a (known finding, root cause): a NAK is queued and the transaction moves to completion in the same call
-      Clause("C10.no_pdu_queued_when_completion_follows", lambda o, n, r: Implies_(And_(
-          ne(n.self.states.state, IDLE), o.self._pdus_to_be_sent.length() == 0), completion_queue_inv(n.self)), ("C10",), assumable=False),
       Clause("step.unchanged_or_completion", lambda o, n, r: Implies_(ne(n.self.states.state, IDLE), Or_(
           Eq_(n.self.states.step, o.self.states.step), step_is(n.self, STEP.TRANSFER_COMPLETION))), ("C05",)),
       Clause("C06.only_acked_mode_tracks_segments", lambda o, n, r: Implies_(eq(mode(o.self), UNACK), And_(
           len(emitted(n)) == 0, unchanged(o, n, "_params.acked_params.last_end_offset", "_params.acked_params.last_start_offset"))), ("C06",)),
   ] + inv_clauses(("C05",)),
-  raises=[RaiseClause("F5b.tracker_value_error_leaks", ValueError, when=lambda o: eq(mode(o.self), ACK), props=("C10",), modifies=FD_MOD)],
   effects={"vfs", "user", "fault_cb"}, modular=True)
 
 
@@ -1326,35 +1322,35 @@ def _fdwm_end(o):
     return o.fd_pdu.offset + _fdwm_len(o)
 
 
+def _fdwm_progress(o):
+    e = _fdwm_end(o)
+    return z3.If(e >= o.self._params.fp.progress, e, o.self._params.fp.progress)
+
+
 C("_handle_fd_without_previous_metadata", arg_types={**SELF, "first_pdu": T.Bool, "fd_pdu": T.Obj(_FD)},
   props=("C06", "C05"), result=None,
   requires=REQ_INV + REQ_TRK + [("acked_busy", _busy_acked), ("pdu_wf", lambda o: pdu_wf(o.fd_pdu)),
                                 ("metadata_missing", lambda o: And_(B(_ap(o.self).metadata_missing), step_is(o.self, STEP.WAITING_FOR_METADATA))),
-                                # this PDU's extent was not recorded yet (findings F13 / grid assumption of property C06)
-                                ("extent_not_tracked", lambda o: Implies_(_fdwm_len(o) > 0, z3.ForAll([TR.X], z3.Implies(
-                                    z3.If(to_z3_bool(B(o.first_pdu)), 0, o.fd_pdu.offset) <= TR.X,
-                                    z3.Not(TR.view(trk(o.self), TR.X))))))],
+                                ("whole_extent_rerequested", lambda o: B(o.first_pdu))],
   modifies=FDWM_MOD,
   ensures=[
       Clause("C05.file_data_before_metadata_is_not_written", lambda o, n, r: len(vfs_ops(n)) == 0, ("C05",)),
+      # nothing can be stored before the Metadata PDU: exactly the extent seen so far is listed as lost (never less)
       Clause("C06.data_before_metadata_is_recorded_as_lost", lambda o, n, r: Implies_(_fdwm_len(o) > 0, And_(
-          z3.ForAll([TR.X], TR.view(trk(n.self), TR.X) == z3.Or(TR.view(trk(o.self), TR.X), z3.And(
-              z3.If(to_z3_bool(B(o.first_pdu)), 0, o.fd_pdu.offset) <= TR.X, TR.X < _fdwm_end(o)))),
-          n.self._params.acked_params.last_end_offset == _fdwm_end(o), n.self._params.acked_params.last_start_offset == _fdwm_end(o))), ("C06",)),
+          z3.ForAll([TR.X], TR.view(trk(n.self), TR.X) == z3.And(0 <= TR.X, TR.X < _fdwm_progress(o))),
+          n.self._params.acked_params.last_end_offset == _fdwm_progress(o),
+          n.self._params.acked_params.last_start_offset == _fdwm_progress(o))), ("C06",)),
       Clause("C06.metadata_rerequested_immediately", lambda o, n, r: And_(
-          Implies_(And_(B(rcfg(o.self).immediate_nak_mode), B(o.first_pdu), _fdwm_len(o) > 0),
-                   _one_nak(n, _fdwm_end(o), [(0, 0), (0, _fdwm_end(o))], o.self)),
-          Implies_(And_(B(rcfg(o.self).immediate_nak_mode), B(o.first_pdu), _fdwm_len(o) == 0),
-                   _one_nak(n, _fdwm_end(o), [(0, 0)], o.self)),
-          Implies_(And_(B(rcfg(o.self).immediate_nak_mode), Not_(B(o.first_pdu)), _fdwm_len(o) > 0),
-                   _one_nak(n, _fdwm_end(o), [(0, _fdwm_end(o))], o.self)),
-          Implies_(Or_(Not_(B(rcfg(o.self).immediate_nak_mode)), And_(Not_(B(o.first_pdu)), _fdwm_len(o) == 0)),
-                   len(emitted(n)) == 0)), ("C06",)),
-      Clause("C06.progress_is_end_of_this_segment", lambda o, n, r: n.self._params.fp.progress == _fdwm_end(o), ("C06",)),
+          Implies_(And_(B(rcfg(o.self).immediate_nak_mode), _fdwm_len(o) > 0),
+                   _one_nak(n, _fdwm_progress(o), [(0, 0), (0, _fdwm_progress(o))], o.self)),
+          Implies_(And_(B(rcfg(o.self).immediate_nak_mode), _fdwm_len(o) == 0),
+                   _one_nak(n, _fdwm_progress(o), [(0, 0)], o.self)),
+          Implies_(Not_(B(rcfg(o.self).immediate_nak_mode)), len(emitted(n)) == 0)), ("C06",)),
+      Clause("C06.progress_never_moves_backwards", lambda o, n, r: n.self._params.fp.progress == _fdwm_progress(o), ("C06",)),
       Clause("C06.empty_segment_changes_no_bookkeeping", lambda o, n, r: Implies_(_fdwm_len(o) == 0, And_(
           unchanged(o, n, "_params.acked_params.last_start_offset", "_params.acked_params.last_end_offset"),
           TR.same_map(trk(n.self), trk(o.self)) if trk(n.self) is not trk(o.self) else True)), ("C06",)),
-      Clause("inv.tracker", lambda o, n, r: Implies_(isnone(o.self._params.fp.file_size_eof), tracker_inv(n.self)), ("C06", "C10")),
+      Clause("inv.tracker", lambda o, n, r: tracker_inv(n.self), ("C06", "C10")),
       Clause("C15.no_indication_before_metadata", lambda o, n, r: len(inds(n)) == 0 and len(fault_cbs(n)) == 0, ("C15", "C05")),
       Clause("queue.counter", lambda o, n, r: to_z3_int(n.self.states._num_packets_ready) == n.self._pdus_to_be_sent.length(), ("C06",)),
   ],
@@ -1450,17 +1446,15 @@ C("_handle_waiting_for_missing_metadata", arg_types={**SELF, "packet_holder": T.
   props=("C03", "C04", "C06", "C10"), result=None,
   requires=REQ_INV + REQ_TRK + DEFAULT + [("waiting_for_metadata", _wmm_pre),
             ("names_together", lambda o: (_hp(o).dest_file_name is None) == (_hp(o).source_file_name is None) if _hp_is(o, MetadataPdu) else True),
-            ("fd_only_before_eof", lambda o: (isnone(o.self._params.fp.file_size_eof) if _hp_is(o, _FD) else True)),
-            # (an empty File Data PDU moves `progress` backwards here; part of finding F13)
-            ("nonempty_file_data", lambda o: (_hp(o).file_data.length() > 0 if _hp_is(o, _FD) else True)),
+            # a File Data PDU lies within the file size announced by an EOF PDU received earlier (this step has no
+            # File Size Error check: finding F13c)
+            ("fd_within_eof_size", lambda o: (opt(o.self._params.fp.file_size_eof, lambda fse: _hp(o).offset + _hp(o).file_data.length() <= fse, True)
+                                              if _hp_is(o, _FD) else True)),
             # a repeated EOF PDU announces the same file size as the first one
             ("eof_size_consistent", lambda o: (And_(Or_(isnone(o.self._params.fp.file_size_eof), Eq_(
                 o.self._params.fp.file_size_eof, _hp(o).file_size)), _hp(o).file_size >= _ap(o.self).last_end_offset)
                 if _hp_is(o, EofPdu) else True)),
-            # F13: a File Data PDU arriving here when ranges are already tracked re-keys the entry at 0 (known finding)
-            ("extent_not_tracked", lambda o: (Implies_(_hp(o).file_data.length() > 0, z3.ForAll([TR.X], z3.Implies(
-                0 <= TR.X, z3.Not(TR.view(trk(o.self), TR.X)))))
-                if _hp_is(o, _FD) else True))],
+            ],
   modifies=WMM_MOD,
   cond_frames=[("C10.other_pdus_are_ignored", lambda o: True if not (_hp_is(o, _FD) or _hp_is(o, MetadataPdu) or _hp_is(o, EofPdu)) else False,
                 [], {"silent": True})],
@@ -1474,8 +1468,9 @@ C("_handle_waiting_for_missing_metadata", arg_types={**SELF, "packet_holder": T.
               _ap(n.self).nak_activity_counter == 0, opt(_ap(n.self).procedure_timer, lambda t: Not_(B(t.expired)), False)))
           if (_hp_is(o, MetadataPdu) or _hp_is(o, EofPdu)) else True), ("C04",)),
       Clause("C06.file_data_keeps_whole_extent_requested", lambda o, n, r: (
-          Implies_(_hp(o).file_data.length() > 0, z3.ForAll([TR.X], TR.view(trk(n.self), TR.X) == z3.Or(
-              TR.view(trk(o.self), TR.X), z3.And(0 <= TR.X, TR.X < _hp(o).offset + _hp(o).file_data.length()))))
+          (lambda e: Implies_(_hp(o).file_data.length() > 0, z3.ForAll([TR.X], TR.view(trk(n.self), TR.X) == z3.And(
+              0 <= TR.X, TR.X < z3.If(e >= o.self._params.fp.progress, e, o.self._params.fp.progress)))))(
+              _hp(o).offset + _hp(o).file_data.length())
           if _hp_is(o, _FD) else True), ("C06",)),
       # F13: File Data arriving here after the EOF PDU (ranges already tracked) breaks the bookkeeping: excluded by the
       # precondition `extent_not_tracked`; without an EOF so far the invariants are kept
@@ -1801,8 +1796,6 @@ def _dfsm_contract(label, sl):
               # C10: "unretrieved PDUs" is only raised by the first statement, i.e. for PDUs queued when the call was made
               RaiseClause("C10.unretrieved_truthful", D.UnretrievedPdusToBeSent, when=lambda o: o.self._pdus_to_be_sent.length() > 0,
                           iff=True, props=("C10",), modifies=[])] if first else []) + [
-              RaiseClause("F5b.tracker_value_error_leaks", ValueError, when=lambda o: o.packet is not None and o.packet.cls is _FD,
-                          props=("C10",), modifies=DFSM_MOD),
               RaiseClause("vfs.truncate_race", FileNotFoundError, when=lambda o: o.packet is not None and o.packet.cls is MetadataPdu,
                           props=("C10",), modifies=DFSM_MOD),
           ],
@@ -1860,11 +1853,8 @@ def _dfsm_union():
               ("busy", lambda o: ne(o.self.states.state, IDLE)), ("admitted", _d_admitted)],
           modifies=DFSM_MOD, ensures=[Clause("mid_condition", lambda o, n, r: mid_condition(n.self), ())],
           raises=[
-              # finding F5a: in acknowledged mode it may also be raised (by _prepare_finished_pdu) for a NAK queued in this call
-              RaiseClause("unretrieved", D.UnretrievedPdusToBeSent, modifies=DFSM_MOD,
-                          when=lambda o: Or_(o.self._pdus_to_be_sent.length() > 0, eq(mode(o.self), ACK))),
-              RaiseClause("F5b.tracker_value_error_leaks", ValueError, when=lambda o: o.packet is not None and o.packet.cls is _FD,
-                          modifies=DFSM_MOD),
+              RaiseClause("unretrieved", D.UnretrievedPdusToBeSent, modifies=[], iff=True,
+                          when=lambda o: o.self._pdus_to_be_sent.length() > 0),
               RaiseClause("vfs.truncate_race", FileNotFoundError, when=lambda o: o.packet is not None and o.packet.cls is MetadataPdu,
                           modifies=DFSM_MOD),
           ],
@@ -1906,8 +1896,8 @@ C("state_machine", arg_types={**SELF, "packet": T.Opaque}, setup=_dsm_setup, pro
   raises=[RaiseClause(f"C10.rejected_pdu_changes_nothing.{e.__name__}", e, when=lambda o: o.packet is not None, props=("C10", "C20"),
                       modifies=[], post=lambda o, n: len([e for e in n.trace if e["kind"] not in ("opaque_call", "vfs")]) == 0)
           for e in DEST_ADMISSION_EXC] + [
-      RaiseClause("C10.unretrieved_truthful", D.UnretrievedPdusToBeSent,
-                  when=lambda o: And_(ne(o.self.states.state, IDLE), o.self._pdus_to_be_sent.length() > 0), props=("C10",), modifies=DSM_MOD),
+      RaiseClause("C10.unretrieved_truthful", D.UnretrievedPdusToBeSent, iff=True,
+                  when=lambda o: And_(ne(o.self.states.state, IDLE), o.self._pdus_to_be_sent.length() > 0), props=("C10",), modifies=[]),
       RaiseClause("vfs.truncate_race", FileNotFoundError, when=lambda o: o.packet is not None and o.packet.cls is MetadataPdu,
                   props=("C10",), modifies=DSM_MOD),
   ],
